@@ -102,7 +102,10 @@ func Gen(t *rapid.T) Plan {
 		p.Tasks = append(p.Tasks, TSpec{Out: genOuts(t, "taskout", []string{"err", "err", "panic", "finish"}, 6)})
 	}
 
-	p.Script = c05.GenOps(t, "script", 2, 25, 20000)
+	// mostly dense histories within 20 s; sometimes a history spread over an hour, so that failures follow long
+	// healthy periods (restart backoff must behave the same however long ago it was last reset)
+	horizon := rapid.SampledFrom([]int{20000, 20000, 20000, 3600000}).Draw(t, "horizon")
+	p.Script = c05.GenOps(t, "script", 2, 25, horizon)
 	for i := range p.Script {
 		p.Script[i].Typ %= 2
 	}
